@@ -312,3 +312,30 @@ fn c09_confed_edits() {
     kani::cover!(merged);
     core::mem::forget((a, s, p));
 }
+
+//@ id=C09 tier=quick cap=1200 mem=24
+//@ fn: event::export::with_llgr_stale_community
+//@ bound: attribute list [COMMUNITY with 2 symbolic communities (8 bytes)]; unwind 12
+//@ desc: afterwards the COMMUNITY attribute contains LLGR_STALE (0xFFFF0006) as an ALIGNED 4-byte community, exactly once more than before if it was absent, and every original community is kept in order
+#[kani::proof]
+#[kani::unwind(12)]
+fn c09_llgr_stale_community() {
+    let cb: [u8; 8] = kani::any();
+    let comm = bgp::Attribute::new_with_bin(bgp::Attribute::COMMUNITY, fixed_vec(cb, 8)).unwrap();
+    let attrs = Arc::new(fixed_vec([comm], 1));
+    let keep = attrs.clone();
+    let out = with_llgr_stale_community(&attrs);
+    let c0 = u32::from_be_bytes([cb[0], cb[1], cb[2], cb[3]]);
+    let c1 = u32::from_be_bytes([cb[4], cb[5], cb[6], cb[7]]);
+    let had = c0 == 0xffff_0006 || c1 == 0xffff_0006;
+    assert!(out.len() == 1 && out[0].code() == bgp::Attribute::COMMUNITY);
+    let b = out[0].binary().unwrap();
+    assert!(b.len() == if had { 8 } else { 12 });
+    assert!(b[0] == cb[0] && b[3] == cb[3] && b[4] == cb[4] && b[7] == cb[7]);
+    if !had {
+        assert!(b[8] == 0xff && b[9] == 0xff && b[10] == 0x00 && b[11] == 0x06);
+    }
+    kani::cover!(had);
+    kani::cover!(!had && cb[2] == 0xff && cb[3] == 0xff && cb[4] == 0 && cb[5] == 6);
+    core::mem::forget((out, attrs, keep));
+}
